@@ -266,10 +266,12 @@ def case_strategy(draw, modes=("full", "sparse", "pkgdump", "legacy"), embedded=
     mode = draw(st.sampled_from(modes))
     has_p = draw(st.booleans())
     platform = "P" if has_p and mode != "pkgdump" and draw(st.booleans()) else "default"
-    nstages = draw(st.sampled_from([1, 1, 2, 3]))
+    # mostly few stages; sometimes more than ten (two-digit stage indices in section and file names)
+    nstages = draw(st.sampled_from([1, 1, 2, 3, 1, 2, 3, 12]))
     comps = []
     for s in range(nstages):
-        names = draw(st.lists(st.sampled_from(COMP_NAMES), min_size=1, max_size=3 if nstages == 1 else 2, unique=True))
+        names = draw(st.lists(st.sampled_from(COMP_NAMES), min_size=1,
+                              max_size=3 if nstages == 1 else (2 if nstages <= 3 else 1), unique=True))
         for n in names:
             opts = draw(options(embedded=embedded))
             if "interpreter" in opts:
